@@ -55,7 +55,7 @@ def units(tier, seed):
     for rep in range(reps):
         for template in TEMPLATES:
             for n in sizes:
-                for style in ("std", "scatter"):
+                for style in ("std", "scatter", "crossed"):
                     for slot in SLOTS:
                         out.append({"template": template, "n": n, "style": style,
                                     "slot": slot, "seed": seed, "rep": rep})
